@@ -35,6 +35,8 @@ FF = [NC + f for f in ("fastForward", "checkFastForward", "checkTrustedSigner", 
     "src/node/node.go:Node.fastForward", "src/node/node.go:Node.getBestFastForwardResponse",
     "src/hashgraph/inmem_store.go:InmemStore.Reset", "src/hashgraph/badger_store.go:BadgerStore.Reset",
     "src/hashgraph/block.go:Block.Verify", "src/hashgraph/frame.go:Frame.Hash", "src/peers/peer_set.go:PeerSet.Hash",
+    "src/hashgraph/block.go:Block.GetSignatures", "src/hashgraph/block.go:Block.GetSignature", "src/hashgraph/block.go:BlockSignature.*",
+    "src/peers/peer.go:*", "src/peers/peer_set.go:NewPeerSet",
 ]
 SIGS = [HG + f for f in ("ProcessSigPool", "SetAnchorBlock", "setAnchorBlock", "removeProcessedSignatures")] + [
     "src/hashgraph/block.go:Block.Sign", "src/hashgraph/block.go:Block.Verify", "src/hashgraph/block.go:Block.SetSignature",
@@ -76,7 +78,9 @@ SOURCES = {
     "C13": FF + CORE,
     "C14": FF,
     "C15": WIRE + ["src/common/median.go:*", HG + "GetFrame", HG + "createRoot", "src/hashgraph/caches.go:PeerSetCache.*",
-            "src/hashgraph/inmem_store.go:InmemStore.Reset", "src/hashgraph/inmem_store.go:InmemStore.FirstRound"],
+            "src/hashgraph/inmem_store.go:InmemStore.Reset", "src/hashgraph/inmem_store.go:InmemStore.FirstRound",
+            "src/peers/peer.go:*", "src/hashgraph/internal_transaction.go:*", "src/hashgraph/block.go:Block.Marshal", "src/hashgraph/block.go:Block.Unmarshal",
+            "src/common/hex.go:*", "src/crypto/keys/signature.go:*"],
     "C16": STORE,
     "C17": RPC + ["src/node/node.go:Node.checkSuspend", "src/node/node.go:Node.Suspend"],
     "C18": [HG + "GetFrame", HG + "ProcessDecidedRounds", "src/common/median.go:*", "src/hashgraph/block.go:NewBlockFromFrame", "src/hashgraph/block.go:NewBlock"],
